@@ -550,11 +550,18 @@ func genCase13(c *Chooser) C13Case {
 			}
 		}
 	}
-	// C13 is claimed for v2 consumers: a v1 producer makes foreign-dialect
-	// artefacts, the consumer itself always runs the v2 library
-	if civ.v1 {
+	// The consumer mostly runs the v2 library (what C13's anchors name). The
+	// CLI half of C13 speaks about every jd process, though, and the top-level
+	// binary with -v2=false is one: a share of the consumers runs the v1
+	// library, on v1-dialect and on v2-dialect artefacts.
+	if civ.v1 && c.Chance(1, 2) {
 		civ.v1 = false
 		if iv.v1 {
+			cs.Skew = append(cs.Skew, "version")
+		}
+	} else if !civ.v1 && c.Chance(1, 12) {
+		civ.v1, civ.bin = true, "top"
+		if !iv.v1 {
 			cs.Skew = append(cs.Skew, "version")
 		}
 	}
